@@ -16,7 +16,7 @@ RULE = ("histories of ~18 steps over 1-3 proxies and 1-5 concurrently open strea
         "{0,5} x ITER_STREAM_LINGER {0,3} x both server types. distinct = (history hash, step); non-trivial = the step concerns an open stream")
 ASSUMPTIONS = ["the virtual clock starts at 1e9 (a linger stamp of 0 means 'none' in Pyro's code)", "after every client-side disconnect / oneway close the harness waits for the server-side event (10 s watchdog, expiry = inconclusive)",
                "a stream whose deadline has passed may be forgotten at any time until the next explicit housekeeping step, after which it must be gone"]
-REQUIRED_REACH = ["items_ok", "stopiteration_ok", "generator_exception_ok", "forgotten_ok", "reconnect_continues", "linger_expired", "lifetime_expired", "table_checked", "streaming_disabled_ok", "racing_reconnects"]
+REQUIRED_REACH = ["items_ok", "stopiteration_ok", "generator_exception_ok", "forgotten_ok", "reconnect_continues", "linger_expired", "lifetime_expired", "table_checked", "streaming_disabled_ok", "racing_reconnects", "server_ended_connections"]
 SHARD_TIMEOUT = {"quick": 240, "thorough": 3000}
 
 
@@ -254,6 +254,37 @@ def run_history(fx, vclock, rec, r, cfg, nsteps, hh):
                         else:
                             ms.state = "gone"
                 conns[i] = None
+            elif k < 0.79:
+                # the SERVER ends the connection (a request whose arguments carry a forbidden class tag: security error): for the streams
+                # of that connection this is a disconnect like any other
+                i = r.randrange(nprox)
+                if proxies[i]._pyroConnection is None:
+                    continue
+                pay["steps"].append(("server-drops", i))
+                rec.case((repr(sorted(cfg.items())), hh, step), nontrivial=True)
+                live_before = fx.live_connection_count()
+                why = None
+                try:
+                    proxies[i]._pyroInvoke("ping", [{"__class__": "forbidden__tag.X"}], {})
+                    dropped = False
+                except Exception as x:
+                    dropped = True
+                    why = x
+                if not dropped:
+                    return fail("security-error-not-raised", "a call with a forbidden class tag returned normally", step)
+                if not fx.wait_until(lambda: fx.server_side_closed(conns[i]), 10.0):
+                    rec.inconc("server did not end the connection after the security error within the watchdog (client saw %r; live before %r, now %r; cfg %r)" % (why, live_before, fx.live_connection_count(), cfg))
+                    return True
+                real_time.sleep(0.01)
+                proxies[i]._pyroRelease()
+                for ms, _ in streams:
+                    if ms.conn == conns[i] and ms.state != "gone" and ms.proxy_i == i:
+                        if cfg["linger"] > 0:
+                            ms.linger_at = vclock.now
+                        else:
+                            ms.state = "gone"
+                conns[i] = None
+                rec.count("server_ended_connections")
             elif k < 0.815 and cfg["linger"] > 0 and fx.servertype == "thread" and getattr(fx, "gate", None) is not None:
                 # racing reconnect: the client drops its connection, reconnects and fetches at once, while the worker that serves the OLD connection
                 # is slow to notice the disconnect (a schedule, produced with a delay at the entry of the daemon's disconnect handling)
